@@ -125,9 +125,9 @@ ops::ThdmPoint thdm_point(uint64_t seed)
 
 // ------------------------------------------------------------------ models
 struct Model {
-   gm2calc::MSSMNoFV_onshell* m = nullptr; gm2calc::THDM* t = nullptr;
+   gm2calc::MSSMNoFV_onshell* m = nullptr; gm2calc::THDM* t = nullptr; bool via_c = false; ///< allocated by the C interface: freed through it
    bool empty() const { return !m && !t; }
-   void reset() { if (m) ops::destroy(m); if (t) ops::destroy(t); m = nullptr; t = nullptr; }
+   void reset() { if (m) { if (via_c) ops::destroy_c(m); else ops::destroy(m); } if (t) { if (via_c) ops::destroy_c(t); else ops::destroy(t); } m = nullptr; t = nullptr; via_c = false; }
 };
 
 struct OpResult { uint64_t bits = 0; std::string exc; bool skipped = false;
@@ -170,6 +170,8 @@ void build_model(Model& out, const std::string& kind, uint64_t arg, int near = 0
    out.reset();
    if (kind == "mssm") { ops::MssmPoint p = mssm_point(arg); perturb(p, near); out.m = ops::make_mssm(p); }
    else if (kind == "thdm") { ops::ThdmPoint p = thdm_point(arg); perturb(p, near); out.t = ops::make_thdm(p); }
+   else if (kind == "cmssm") { ops::MssmPoint p = mssm_point(arg); perturb(p, near); out.m = ops::make_mssm_c(p); out.via_c = true; }
+   else if (kind == "cthdm") { ops::ThdmPoint p = thdm_point(arg); perturb(p, near); if (p.yukawa_type >= 1 && p.yukawa_type <= 6) { out.t = ops::make_thdm_c(p); out.via_c = true; } else out.t = ops::make_thdm(p); }
    else if (kind == "slha" && !g_corpus.empty()) { const CorpusFile& f = g_corpus[arg % g_corpus.size()]; ops::make_from_slha(f.bytes, f.type, &out.m, &out.t); }
 }
 
@@ -396,7 +398,7 @@ std::vector<std::string> gen_plan(uint64_t seed, std::string* mode_out)
          }
          const int sl = (int)r.below(NSLOTS);
          switch (what) {
-         case 0: { const int kind = r.chance(0.5) ? 1 : 0; slot_kind[sl] = kind; p.push_back(T + "mk " + std::to_string(sl) + (kind ? " thdm " : " mssm ") + point_arg(kind)); } break;
+         case 0: { const int kind = r.chance(0.5) ? 1 : 0; slot_kind[sl] = kind; p.push_back(T + "mk " + std::to_string(sl) + (r.chance(0.25) ? (kind ? " cthdm " : " cmssm ") : (kind ? " thdm " : " mssm ")) + point_arg(kind)); } break;
          case 1: { // copy
             if (r.chance(0.7)) { const int k = (int)r.below(nshared); slot_kind[sl] = shared_kind[k]; p.push_back(T + "cp " + std::to_string(sl) + " s " + std::to_string(k)); }
             else { const int j = (int)r.below(NSLOTS); if (slot_kind[j] >= 0 && j != sl) { slot_kind[sl] = slot_kind[j]; p.push_back(T + "cp " + std::to_string(sl) + " p " + std::to_string(j)); } else { slot_kind[sl] = 0; p.push_back(T + "mk " + std::to_string(sl) + " mssm " + std::to_string(r.next() >> 1)); } }
